@@ -8,3 +8,15 @@ func dumpEffects(c *Ctx) {
 		fmt.Printf("%-28s %-40s %s %s\n", m.callee, fname(m.fn), c.ipos(m.site), atomList(c.condsAt(m.site)))
 	}
 }
+
+func dumpFn(c *Ctx, name string) {
+	for _, f := range c.ModFuncs {
+		if fname(f) == name {
+			f.WriteTo(osStdout{})
+		}
+	}
+}
+
+type osStdout struct{}
+
+func (osStdout) Write(p []byte) (int, error) { fmt.Print(string(p)); return len(p), nil }
